@@ -180,6 +180,17 @@ public:
   EndReason end = EndReason::EXIT;
   std::string outside_why;
   std::map<std::string, int> occ; // occurrence counters for keyed draws
+  // functions of the active frames, outermost first (maintained by run / call)
+  std::vector<const CrabFunction *> call_stack;
+  // true iff some function has more than one active frame (a recursive re-entry
+  // is on the stack): the only situation in which known finding KF28 can show
+  bool stack_has_recursion() const {
+    for (size_t i = 0; i < call_stack.size(); i++)
+      for (size_t j = i + 1; j < call_stack.size(); j++)
+        if (call_stack[i] == call_stack[j])
+          return true;
+    return false;
+  }
   // fault injection: called at every block end (after the last statement)
   std::function<void(Machine &, Frame &, const std::string &)> at_block_end;
   std::function<void(Machine &, Frame &, const std::string &)> at_block_begin;
